@@ -196,6 +196,7 @@ fn interp<RK: RadioKind>(rk: RK, world: Shared, case: &ACase) -> AOut {
             w.cur_op = name.to_string();
             w.op_inter = 0;
             w.blocked = false;
+            w.terminal_in_op = None;
             w.script = op.irq().iter().map(|e| e.name().to_string()).collect();
             w.rx_payload = payload_rx(idx);
         }
@@ -306,7 +307,15 @@ fn interp<RK: RadioKind>(rk: RK, world: Shared, case: &ACase) -> AOut {
                     break;
                 }
             }
-            (R::Pending, _) => break, // blocked on the environment
+            (R::Pending, _) => {
+                // blocked on the environment. If the chip has delivered a terminal outcome during this
+                // call and no flag is pending any more, the driver cleared it without acting on it.
+                let (term, pending) = (world.borrow().terminal_in_op.clone(), world.borrow().chip.irq_line());
+                if let (Some(ev), false, false) = (term, pending, recovering) {
+                    out.failure = Some(fail(idx, "I4", format!("adapter/i4/{name}/outcome-lost/{ev}"), format!("the chip reported {ev} (flags latched, interrupt line fired) but {name} cleared it and keeps waiting: the operation neither completed nor failed; chip is in {chip_mode}")));
+                }
+                break;
+            }
             (R::Ok, AOp::Tx { ch, .. }) => {
                 proto = P::Standby;
                 exp_freq = Some(CHANNELS[*ch as usize % 4].0);
@@ -351,7 +360,7 @@ fn interp<RK: RadioKind>(rk: RK, world: Shared, case: &ACase) -> AOut {
                     out.nontrivial = true;
                 }
             }
-            (R::Err(e), AOp::Tx { irq, .. }) if irq.contains(&Ev::Timeout) => {
+            (R::Err(e), AOp::Tx { irq, .. }) if irq.iter().any(|x| x.has_timeout()) => {
                 out.classes.push("chip-outcome-error");
                 loss = true;
                 proto = P::Standby;
@@ -391,7 +400,7 @@ fn interp<RK: RadioKind>(rk: RK, world: Shared, case: &ACase) -> AOut {
                     out.nontrivial = out.nontrivial || loss;
                 }
             }
-            (R::Err(e), AOp::RxContinuous { irq } | AOp::RxSingle { irq }) if irq.iter().any(|x| matches!(x, Ev::Timeout | Ev::CrcError | Ev::HeaderError)) => {
+            (R::Err(e), AOp::RxContinuous { irq } | AOp::RxSingle { irq }) if irq.iter().any(|x| x.has_error()) => {
                 out.classes.push("chip-outcome-error");
                 loss = true;
                 if proto == P::RxSingle {
@@ -435,6 +444,8 @@ pub fn alphabet() -> Vec<AOp> {
         AOp::RxSingle { irq: vec![Ev::Done] },
         AOp::RxSingle { irq: vec![Ev::Timeout] },
         AOp::RxSingle { irq: vec![Ev::Preamble, Ev::CrcError] },
+        AOp::RxSingle { irq: vec![Ev::PreambleTimeout] },
+        AOp::RxSingle { irq: vec![Ev::HeaderValid, Ev::HeaderValidTimeout] },
         AOp::RxContinuous { irq: vec![Ev::Done] },
         AOp::RxContinuous { irq: vec![] },
         AOp::RxContinuous { irq: vec![Ev::Spurious] },
